@@ -9,7 +9,7 @@
 From Coq Require Import ZArith List Bool.
 From LV Require Import Ws.WsDefs Ws.Base64Defs Ws.Sha1Defs Ws.WsSpecDefs Ws.WsDecoderModel Ws.WsEncoderModel Ws.WsHandshakeModel
   Ws.WsTransparency Ws.WsRefuted Ws.WsPartial Ws.Base64Proofs Ws.WsDecoderProofs4 Ws.WsDecoderProofs6
-  Ws.WsEncoderProofs Ws.WsStrictProofs Ws.WsHandshakeProofs Ws.WsSafetyProofs Ws.WsDrainProofs Ws.WsProgressProofs Gen.Consts_C09 Gen.Strs_C09.
+  Ws.WsEncoderProofs Ws.WsStrictProofs Ws.WsHandshakeProofs Ws.WsSafetyProofs Ws.WsDrainProofs Ws.WsProgressProofs Ws.WsStrict2Proofs Ws.WsStrict3Proofs Gen.Consts_C09 Gen.Strs_C09.
 Import ListNotations.
 Local Open Scope Z_scope.
 
@@ -129,6 +129,56 @@ Theorem C09_strict_progress : forall cont w b0 b1 rest sched l1 l2 lens,
   BD w cont -> bad2 cont b0 b1 = true -> all_avail sched = true -> (4 <= length sched)%nat ->
   first_hard (fst (fst (ws_run true w (mkIO (b0 :: b1 :: rest) sched) (l1 :: l2 :: lens)))) = Some (CRet (-1) (Some EPROTO) []).
 Proof. exact strict_progress. Qed.
+
+(* non-minimal 16- / 64-bit length (masked frame, any opcode byte): every segmentation -> EAGAIN*, EPROTO, never
+   data; with bytes always available the EPROTO comes within 14 calls *)
+Theorem C09_strict_nonminimal : forall cont w H rest sched lens,
+  BD w cont -> nonminimal_header H -> sched_live sched = true ->
+  match first_hard (fst (fst (ws_run true w (mkIO (H ++ rest) sched) lens))) with
+  | None => True
+  | Some r => r = CRet (-1) (Some EPROTO) []
+  end.
+Proof. exact strict_nonminimal. Qed.
+
+Theorem C09_strict_nonminimal_progress : forall cont w H rest sched lens,
+  BD w cont -> nonminimal_header H -> all_avail sched = true ->
+  (3 * length lens <= length sched)%nat -> 14 <= Z.of_nat (length lens) ->
+  first_hard (fst (fst (ws_run true w (mkIO (H ++ rest) sched) lens))) = Some (CRet (-1) (Some EPROTO) []).
+Proof. exact strict_nonminimal_progress. Qed.
+
+Example C09_strict_nonminimal_nonvacuous :
+  nonminimal_header [130; 254; 0; 5; 1; 2; 3; 4] /\ nonminimal_header [129; 255; 0; 0; 0; 0; 0; 0; 255; 255; 9; 9; 9; 9].
+Proof. split; do 3 eexists; (split; [reflexivity|]); (split; [reflexivity|]); [left|right]; repeat split; vm_compute; reflexivity. Qed.
+
+(* close frame (masked, final, payload 0..125 bytes): every segmentation -> EAGAIN*, then ECONNRESET; no byte of
+   it, nor anything behind it, is delivered before the error; with bytes always available within 6 + L + 1 calls *)
+Theorem C09_strict_close_frame : forall cont w L m0 m1 m2 m3 M rest sched lens,
+  BD w cont -> 0 <= L <= 125 -> zlen M = L -> sched_live sched = true ->
+  match first_hard (fst (fst (ws_run true w (mkIO (close_header L m0 m1 m2 m3 ++ M ++ rest) sched) lens))) with
+  | None => True
+  | Some r => r = CRet (-1) (Some ECONNRESET) []
+  end.
+Proof. exact strict_close_frame. Qed.
+
+Theorem C09_strict_close_frame_progress : forall cont w L m0 m1 m2 m3 M rest sched lens,
+  BD w cont -> 0 <= L <= 125 -> zlen M = L -> all_avail sched = true ->
+  (3 * length lens <= length sched)%nat -> 6 + L + 1 <= Z.of_nat (length lens) ->
+  first_hard (fst (fst (ws_run true w (mkIO (close_header L m0 m1 m2 m3 ++ M ++ rest) sched) lens))) = Some (CRet (-1) (Some ECONNRESET) []).
+Proof. exact strict_close_frame_progress. Qed.
+
+Example C09_strict_close_frame_nonvacuous :
+  first_hard (fst (fst (ws_run true ws_init (mkIO (close_header 2 9 9 9 9 ++ [10; 226] ++ [130; 129; 1; 1; 1; 1; 66])
+                                                  [RAvail 1; RAgain; RAvail 4; RAvail 1; RAvail 1; RAvail 9; RAvail 9]) [5; 5; 5; 5; 5; 5])))
+  = Some (CRet (-1) (Some ECONNRESET) []).
+Proof. vm_compute. reflexivity. Qed.
+
+(* violations this decoder does NOT reject (both variants), by witness: reserved bits, reserved opcodes,
+   control frames longer than 125 bytes - the property text does not list them; recorded, not repaired *)
+Theorem C09_not_rejected :
+  (forall fx, run2 fx [194; 130; 1; 2; 3; 4; 64; 64] = [CRet 2 None [65; 66]; CRet (-1) (Some EAGAIN) []]) /\
+  (forall fx, run2 fx [131; 130; 1; 2; 3; 4; 64; 64] = [CRet (-1) (Some EAGAIN) []; CRet (-1) (Some EAGAIN) []]) /\
+  (forall fx, run2 fx ([137; 254; 0; 126; 1; 2; 3; 4] ++ repeat 7 126) = [CRet (-1) (Some EAGAIN) []; CRet (-1) (Some EAGAIN) []]).
+Proof. exact (conj rsv_bits_accepted (conj reserved_opcode_accepted long_control_accepted)). Qed.
 
 Example C09_strict_nonvacuous :
   BD ws_init None /\ bad2 None 130 5 = true /\ bad2 None 9 128 = true /\ bad2 None 128 133 = true /\
